@@ -10,7 +10,7 @@
                         identifiers, formulae and SMILES-like labels, e.g. CC(=O)O, C#C, Fe(OH)3 ([ex_label_domain]).
       [rxns_of H]       the stored reactions (rule, reactants, products) as a list; multiset equality is [≡ₚ]. *)
 From stdpp Require Import gmap strings sets.
-From SK Require Import lib.Tok model.C15_Model proof.C15_Proof model.C16_Model proof.C16_Defs proof.C16_Chars proof.C16_Str proof.C16_Sg proof.C16_BipA proof.C16_BipB proof.C16_BipNum proof.C16_Reach proof.C16_SgMol proof.C16_SgRules proof.C16_StrItems proof.C16_StrOrder.
+From SK Require Import lib.Tok model.C15_Model proof.C15_Proof model.C16_Model proof.C16_Defs proof.C16_Chars proof.C16_Str proof.C16_Sg proof.C16_BipA proof.C16_BipB proof.C16_BipNum proof.C16_BipMarker proof.C16_Reach proof.C16_SgMol proof.C16_SgRules proof.C16_StrItems proof.C16_StrOrder.
 Local Open Scope string_scope.
 
 (** every network reachable through the store operations (C15_inv_reachable) satisfies the decidable premise used below *)
@@ -196,3 +196,14 @@ Theorem C16_bipartite_integer_numbering : ∀ (fl : bflags) (H : net), f_int fl 
      = Some (rx_attrs fl e (r_rule rx))).
 Proof. exact bipartite_numbering. Qed.
 Print Assumptions C16_bipartite_integer_numbering.
+
+(** ** The `bipartite` node marker is opaque *)
+(** bipartite_to_hypergraph never reads the networkx `bipartite` marker: erasing it from every node ([strip_bip]) does not
+    change the import — for ANY graph and import flags.  So graphs that differ only in their markers (default (0,1), swapped
+    (1,0), booleans, equal values, strings: all just attribute values) import to the same network; together with
+    C16_bipartite_roundtrip (which quantifies over all [bipartite_values]) the round trip holds for every marker pair. *)
+Theorem C16_import_ignores_marker : ∀ (ifl : iflags) (G : bgraph),
+  bipartite_to_hypergraph ifl (BGraph ((λ nd, BNode None (bn_label nd) (bn_kind nd) (bn_mol nd) (bn_eid nd)) <$> b_nodes G) (b_arcs G))
+  = bipartite_to_hypergraph ifl G.
+Proof. exact import_ignores_marker. Qed.
+Print Assumptions C16_import_ignores_marker.
